@@ -76,6 +76,7 @@ class Codec:
 
 def setup(chk, rng, profile="dev", need_limit=True):
     c = Codec(chk, profile)
+    chk.engine = c
     c.standard_dicts(rng)
     if need_limit:
         lim, crash = c.measure_limit()
